@@ -397,22 +397,24 @@ def shards(tier, seed):
     items = []
     for comp, depth in plan(tier).items():
         n = len(COMPONENTS[comp][0]())
+        group = 1 if (tier == 'thorough' and comp in ('gfxmap', 'sfx')) else (4 if comp in ('gfxmap', 'sfx') else 12)
         for init in range(3):
-            for i in range(n):
-                items.append((tier, seed, comp, init, i))
+            for i in range(0, n, group):
+                items.append((tier, seed, comp, init, i, min(n, i + group)))
     # heavy components first
     items.sort(key=lambda it: {'gfxmap': 0, 'sfx': 1}.get(it[2], 2))
     return items
 
 
 def run_shard(item):
-    tier, seed, comp, init, i = item
+    tier, seed, comp, init, lo, hi = item
     res = ShardResult()
     depth = plan(tier)[comp]
     stride = 4 if (tier == 'thorough' and comp in ('gfxmap', 'sfx')) else 1
-    explore(comp, i, init, seed, depth, res, stride, lvl1_stride=1)
-    if i == 7 and init == 2:
-        res.sample({'component': comp, 'initial': 'seeded', 'first_op': list(COMPONENTS[comp][0]()[i]), 'depth': depth})
+    for i in range(lo, hi):
+        explore(comp, i, init, seed, depth, res, stride, lvl1_stride=1)
+        if i == 7 and init == 2:
+            res.sample({'component': comp, 'initial': 'seeded', 'first_op': list(COMPONENTS[comp][0]()[i]), 'depth': depth})
     return res
 
 
